@@ -29,10 +29,8 @@ ASSUMPTIONS = [
     "outgroup clause: with floss = 0 extra co-optimal solutions using the new species are legitimate (DESIGN 7 C09)",
 ]
 OPEN = [
-    "swap_obj / swap_sp / outgroup bijections: see Properties/C09Swap.lean, C09Outgroup.lean when present; explored by this check",
-    "monotonicity of the EVALUATED cost of what the unordered solvers return (proved: scaling for uspfs and "
-    "monotonicity of its table minimum, C09Dp)",
-    "renaming and re-running are runtime facts decided by this check (exploration)",
+    "renaming and re-running are runtime facts (name-keyed dicts, hash order): no pure model can express them; "
+    "decided by this check through metamorphic runs (exploration)",
 ]
 
 ALGOS = ["thl", "ext_spfs", "base_spfs", "superdtl", "base_uspfs"]
@@ -41,7 +39,10 @@ MAX_SET = 400
 
 def algos_for(case):
     has = any("f" in l for _, l in solvers._leaves(case["O"]))
-    return [a for a in ALGOS if has or MODE[a] == "plain"]
+    out = [a for a in ALGOS if has or MODE[a] == "plain"]
+    if case.get("only") == "unordered":
+        out = [a for a in out if MODE[a] != "ordered"]
+    return out
 
 
 # ---- variants -------------------------------------------------------------
@@ -327,6 +328,10 @@ def gen_case(ctx, rng):
     big = ctx.thorough or ctx.deep
     k = rng.random()
     mo, ms, mf = (10, 8, 4) if big and rng.random() < 0.25 else (7, 5, 3) if rng.random() < 0.4 else (5, 4, 3)
+    if k < 0.08:
+        # two internal INHERIT siblings with a private gain and tie-prone costs: the inputs on which the order of
+        # children / of set iteration can leak into the decoded labellings of the unordered solvers
+        return gen.sibling_inherit_case(rng, small=True)
     if k < 0.3:
         return gen.rand_case(rng, mo, ms, 0, plain=True)
     if k < 0.65:
